@@ -94,7 +94,17 @@ class World:
             if os.path.exists(fn):
                 os.remove(fn)
         self.node = simnet.SimNode(net, 'N', '10.0.0.1', W['cs'], disk=DiskInterface(), nonce=4711)
-        self.node.nm.disconnected_peers = load_peers_from_list([(e[0], e[1], 'OUTGOING') for e in BOOKS[book]])
+        # the peer book comes from where a restarted node gets it: peers.json, read by the real DiskInterface.load_peers
+        # (strings decoded from JSON are equal to, but not the same objects as, the constants in the code)
+        if BOOKS[book]:
+            with open('peers.json', 'w') as f:
+                json.dump([[e[0], e[1], 'OUTGOING', '2024-01-01T00:00:00Z'] for e in BOOKS[book]], f)
+            import contextlib
+            import io
+            with contextlib.redirect_stdout(io.StringIO()):
+                self.node.nm.disconnected_peers = self.node.disk.load_peers()
+        else:
+            self.node.nm.disconnected_peers = load_peers_from_list([])
         self.conns = []        # dicts: kind, key, sock (node side), remote (Remote or None), open
         self.ref = {}          # OUTGOING key -> dict(k, t_last, greeted)
         for e in BOOKS[book]:
